@@ -267,6 +267,13 @@ pub fn run(tier: Tier) -> i32 {
     let nseeds = sd.len();
     let g = gen(tier.is_thorough(), sd);
     let out = run_enum(&o, &g);
+    if tier.is_thorough() && crate::common::embedded_fd().is_none() {
+        // the same enumeration (quick alphabets) in the dev-like build: debug assertions live,
+        // debug_log! arguments evaluated
+        let (f, summary) = crate::common::run_embedded("devlike", "C16");
+        run.findings.merge(f);
+        run.cov("devlike_profile_run", summary);
+    }
     enum_evidence(&mut run, &out, "one case = a seed (3 bundled binaries, 6 generated files incl. TLS / dynamic / RELRO / page-sized bss) with 0, 1 or 2 (thorough: also 3 inside one of the first three program headers) header fields replaced by a value of the boundary alphabet {0,1,2,0x7F,0xFF,0x1000,0xFFFF,2^24,2^31-1,2^31,2^32,2^40,2^63-1,2^63,2^64-0x1000,2^64-1,len-1,len,len+1} plus every defined type constant (pairs: inside one program header, the e_ph* group, the e_sh* group, the symtab/strtab section headers), or truncated (generated files: every length; bundled: every length inside header, program headers, section headers, symbol tables); loaded in a worker with catch_unwind, a 1 GiB single-allocation guard, RLIMIT_AS and a hang watchdog; states = distinct (seed, mutation); distinct_nontrivial = distinct (seed, mutation, outcome, error text)");
     run.cov("seeds", json!(nseeds));
     run.guard("cases", out.cases >= 20_000 || out.capped, format!("{} inputs", out.cases));
